@@ -688,6 +688,44 @@ def fixed_chunk_reads(ctx, modnames):
     return out
 
 
+def negative_size_reads(ctx, modnames):
+    """Functions that pass a parameter as the size of a raw read without ever comparing the length they got with it for (in)equality and
+    without rejecting a negative size: `read(-2)` returns the rest of the stream, and `len(got) < n` is false for every negative n, so a
+    corrupt (negative) length prefix yields everything that follows instead of an error.  Rows: one per such function."""
+    out = []
+    for mn in modnames:
+        src = ctx.sm.get(mn)
+        if src is None:
+            continue
+        qidx = qualname_index(src.tree)
+        for fn in [n for n in ast.walk(src.tree) if isinstance(n, (ast.FunctionDef, ast.AsyncFunctionDef))]:
+            params = {a.arg for a in fn.args.args + fn.args.kwonlyargs + fn.args.posonlyargs}
+            own = [n for n in ast.walk(fn)]
+            sized = []
+            for n in own:
+                if isinstance(n, ast.Call) and isinstance(n.func, ast.Attribute) and n.func.attr in ("read", "recv", "read1") and len(n.args) == 1:
+                    used = {x.id for x in ast.walk(n.args[0]) if isinstance(x, ast.Name)} & params
+                    if used:
+                        sized.append((n, used))
+            if not sized:
+                continue
+            for p in sorted({p for _, us in sized for p in us}):
+                def is_len(e):
+                    return isinstance(e, ast.Call) and isinstance(e.func, ast.Name) and e.func.id == "len"
+                eq = any(isinstance(c, ast.Compare) and len(c.ops) == 1 and isinstance(c.ops[0], (ast.Eq, ast.NotEq)) and
+                         ((is_len(c.left) and isinstance(c.comparators[0], ast.Name) and c.comparators[0].id == p) or
+                          (is_len(c.comparators[0]) and isinstance(c.left, ast.Name) and c.left.id == p)) for c in own)
+                sign = any(isinstance(c, ast.Compare) and len(c.ops) == 1 and isinstance(c.ops[0], (ast.Lt, ast.LtE, ast.Gt, ast.GtE)) and
+                           ((isinstance(c.left, ast.Name) and c.left.id == p and isinstance(c.comparators[0], ast.Constant) and c.comparators[0].value in (0, -1)) or
+                            (isinstance(c.comparators[0], ast.Name) and c.comparators[0].id == p and isinstance(c.left, ast.Constant) and c.left.value in (0, -1)))
+                           for c in own)
+                if not eq and not sign:
+                    n0 = next(n for n, us in sized if p in us)
+                    q, _f = enclosing(qidx, src.tree, n0)
+                    out.append({"function": f"{mn}:{q}", "stmt": ast.unparse(n0)[:100], "file": src.rel, "line": n0.lineno, "param": p})
+    return out
+
+
 def minus_zero_slices(ctx, modnames):
     """`x[-r:]` where r is a remainder (`a % b`, `divmod(a, b)[1]`) and the slice is not guarded by a test of r: for r == 0 the slice
     is `x[0:]`, the WHOLE sequence, not the empty tail."""
